@@ -8,6 +8,8 @@ cargo build --offline -q --target-dir target/plain 2>&1 | grep -E "^error" -A8 |
 cargo build --offline -q --release --target-dir target/plain 2>&1 | grep -E "^error" -A8 | head -40 || true
 cargo build --offline -q --features macro_sep --target-dir target/sep 2>&1 | grep -E "^error" -A8 | head -40 || true
 cargo build --offline -q --release --features macro_sep --target-dir target/sep 2>&1 | grep -E "^error" -A8 | head -40 || true
+# nightly toolchain build (the cfg(rustc_nightly) path of add_token), best effort
+cargo +nightly build --offline -q --release --target-dir target/nightly 2>&1 | grep -E "^error" -A8 | head -20 || true
 for b in target/plain/debug target/plain/release target/sep/debug target/sep/release; do
   test -x $b/verif-replay || { echo "missing $b/verif-replay"; exit 1; }
 done
